@@ -31,6 +31,10 @@ type C07Scn struct {
 	// Conc: after the sequential enumeration, several readers restart at once
 	// (c07conc.go)
 	Conc *C07Conc `json:"concurrent_restart,omitempty"`
+	// IndexHome: the instance lives inside an index.SlimIndex for its whole
+	// life (loads through si.Unmarshal when the entry says "index", lookups
+	// through si.Get / si.RangeGet before and after the fault)
+	IndexHome bool `json:"instance_lives_in_slimindex,omitempty"`
 }
 
 var fixedVersions = []string{
@@ -196,7 +200,7 @@ func validBuildMeta(m string) bool {
 }
 
 func genC07(r *Rng, tier string, worker, run int) *C07Scn {
-	c := &C07Scn{}
+	c := &C07Scn{IndexHome: r.Chance(0.25)}
 	fx := loadFixtures()
 	var keys [][]byte
 	useFixture := len(fx) > 0 && run%2 == 0
@@ -219,6 +223,9 @@ func genC07(r *Rng, tier string, worker, run int) *C07Scn {
 		}
 		for tries := 0; tries < 20; tries++ {
 			spec, name := genSpec(r, lim)
+			if c.IndexHome && spec.ValIDs != nil {
+				spec.Enc = "i64" // SlimIndex reads offsets
+			}
 			st, err := spec.build()
 			if err != nil {
 				continue
@@ -456,7 +463,48 @@ func emptyAnswers(st *trie.SlimTrie, qs [][]byte) (bad string) {
 	if n != 0 {
 		return "ScanFrom(\"\") yielded an entry"
 	}
+	if si := homeOf(st); si != nil {
+		// the instance lives inside an index.SlimIndex: its lookups are lookups
+		// of the same instance
+		for _, qb := range qs {
+			q := string(qb)
+			if v, f := si.Get(q); f {
+				return fmt.Sprintf("SlimIndex.Get(%q) = %q,true", q, v)
+			}
+			if v, f := si.RangeGet(q); f {
+				return fmt.Sprintf("SlimIndex.RangeGet(%q) = %q,true", q, v)
+			}
+		}
+	}
 	return ""
+}
+
+// homedPrior: priorInstance, optionally moved into an index.SlimIndex that is
+// then read through (every query once, hits included) before the fault arrives.
+func (c *C07Scn) homedPrior(kind, enc string) (*trie.SlimTrie, bool) {
+	st, held := priorInstance(kind, enc)
+	if !c.IndexHome {
+		return st, held
+	}
+	st = newIndexHome(st)
+	si := homeOf(st)
+	if si == nil {
+		return st, held
+	}
+	for _, qb := range c.Queries {
+		func() {
+			defer func() {
+				if r := recover(); r != nil {
+					if a, ok := r.(abortUnit); ok {
+						panic(a)
+					}
+				}
+			}()
+			si.Get(string(qb))
+			si.RangeGet(string(qb))
+		}()
+	}
+	return st, held
 }
 
 const panStepCap = "STEPCAP"
@@ -478,6 +526,11 @@ func loadVia(st *trie.SlimTrie, entry string, buf []byte) (err error, pan string
 		return proto.Unmarshal(buf, st), ""
 	}
 	if entry == "index" {
+		if si := homeOf(st); si != nil {
+			// the instance lives inside an index: the load goes through the
+			// object the user holds
+			return si.Unmarshal(buf), ""
+		}
 		// through index.SlimIndex, which embeds the trie by value (as
 		// NewSlimIndex builds it): whatever Unmarshal the index type offers
 		si := &index.SlimIndex{SlimTrie: *st}
@@ -562,7 +615,7 @@ func executeC07(scn *Scenario) *RunResult {
 		if entry == "alternate" {
 			entry = []string{"direct", "proto", "direct", "index"}[fi%4]
 		}
-		st, held := priorInstance(c.Prior, enc)
+		st, held := c.homedPrior(c.Prior, enc)
 		var durable []byte
 		nontrivial := false
 		switch ft.Kind {
@@ -607,6 +660,9 @@ func executeC07(scn *Scenario) *RunResult {
 		}
 		res.Evals++
 		res.Counters["prior."+c.Prior]++
+		if c.IndexHome {
+			res.Counters["probe.instance_lives_in_slimindex"]++
+		}
 		res.Counters["entry."+entry]++
 		res.Counters["layout."+layout]++
 		if nontrivial {
@@ -642,6 +698,9 @@ func executeC07(scn *Scenario) *RunResult {
 			if bad != "" {
 				viol = &Violation{Prop: "C07", Oracle: "not-empty-after-reject", Where: where, Detail: desc + ": after the rejected load " + bad}
 			}
+		}
+		if c.IndexHome {
+			dropIndexHome(st)
 		}
 		if viol != nil {
 			viol.Step = int64(fi)
